@@ -457,6 +457,9 @@ pub fn run(mut run: Run) -> i32 {
         if fin {
             // Rect::new needs comparable corners
             cases.push(("Rect", Geometry::Rect(Rect::new(a, b)), true));
+        } else if [a.x, a.y, b.x, b.y].iter().all(|v| !v.is_nan()) {
+            // infinite ordinates compare fine: a Rect with an infinite corner (in either corner, either ordinate) is not valid
+            cases.push(("Rect", Geometry::Rect(Rect::new(a, b)), true));
         }
         for (name, g, valid_if_finite) in cases {
             if !fin {
